@@ -59,6 +59,7 @@ type Location struct {
 	pcache    map[string]*x509.Certificate
 	SlowFirst time.Duration // delay of the first good delivery only
 	StallFor  time.Duration // how long a request hangs in state oStall (default 20 s)
+	HangFirst int           // the first HangFirst requests (counted by Fetches) are accepted and never answered
 	FailFirst int           // the first FailFirst requests (counted by Fetches) are refused, whatever State says
 }
 
@@ -289,6 +290,11 @@ func (l *Location) serve(hit *NetHit) Delivery {
 	l.Fetches++
 	d := Delivery{Kind: dReply, Status: 200, CutAt: -1, Chunk: l.Chunk}
 	html := []byte("<html><body><h1>Service unavailable</h1></body></html>\n")
+	if l.HangFirst > 0 && l.Fetches <= l.HangFirst {
+		// the connection is accepted and nothing ever comes back
+		d.Kind, d.Delay, d.Note = dStall, 200*time.Hour, "hangs for good"
+		return d
+	}
 	if l.FailFirst > 0 && l.Fetches <= l.FailFirst {
 		d.Kind, d.Note = dRefuse, "refused (first requests fail)"
 		return d
